@@ -1,4 +1,5 @@
 import Tpp.Lemmas.Step
+import Tpp.Lemmas.RendOnly
 /-!
 C01 – attributed text is rendered with exactly the requested attributes and charset.
 
@@ -88,5 +89,39 @@ example : RunWF {} (Sys.step {} ({}, demoVT) (.resize 3 2 demoVT.cells 0 0 none 
   · show (0:Int) ≤ 2 ∧ (2:Int) < _ ∧ (0:Int) ≤ 1 ∧ (1:Int) < _
     decide
   · intro e he; simp at he; rcases he with rfl | rfl <;> decide
+
+/-- **no size needed**: the rendering clause holds whatever the library believes about sizes and positions –
+    no `set_size` at all (the README's use), a `set_size` that does not match the terminal, the terminal
+    resized without the library being told (`REv.termResize`), cursor moves to ANY non-negative position
+    (`Op.WFR` puts no bound on them).  Moves may then land elsewhere than asked (that is C02's business and
+    needs the size), but every requested glyph is printed, in order, with exactly the requested look, and the
+    byte stream stays well formed. -/
+theorem C01_rendering_any_size (beh : Behaviour) (st : TermState × VT) (hA : AgreeRend st.1 st.2) (evs : List REv)
+    (hwf : RRunWF beh st evs) :
+    (∃ entries, (RSys.run beh st evs).2.log = st.2.log ++ entries ∧
+        entries.map (·.2.2) = (evs.flatMap REv.elements).map cellOf) ∧
+    (RSys.run beh st evs).2.malformed = false ∧ (RSys.run beh st evs).2.ps = .ground := by
+  obtain ⟨h1, h2⟩ := agreeRend_run beh evs st hA hwf
+  exact ⟨h2, h1.ok, h1.ground⟩
+
+/-- … in particular for a fresh `terminal` object that never declares a size, talking to a terminal in ANY
+    unknown state (rendition, size, contents, cursor, modes) -/
+theorem C01_rendering_readme (beh : Behaviour) (vt0 : VT) (hu : vt0.Unknown) (evs : List REv)
+    (hwf : RRunWF beh ({}, vt0) evs) :
+    (∃ entries, (RSys.run beh ({}, vt0) evs).2.log = vt0.log ++ entries ∧
+        entries.map (·.2.2) = (evs.flatMap REv.elements).map cellOf) ∧
+    (RSys.run beh ({}, vt0) evs).2.malformed = false ∧ (RSys.run beh ({}, vt0) evs).2.ps = .ground :=
+  C01_rendering_any_size beh ({}, vt0) (agreeRend_init vt0 hu) evs hwf
+
+-- non-vacuity: no size declared, a move far outside the 3x2 terminal, a lying set_size, a silent resize
+example : RRunWF {} ({}, demoVT)
+    [.op (.writeString [demoEl, {}]), .op (.moveCursor ⟨500, 70⟩), .op (.writeElement demoEl), .op (.setSize ⟨10, 10⟩),
+     .termResize 7 7 demoVT.cells 6 6 none true, .op (.erase .above), .op (.moveCursor ⟨9, 9⟩), .op (.writeElement {})] := by
+  refine ⟨?_, ?_, ?_, trivial, trivial, trivial, ?_, ?_, trivial⟩
+  · intro e he; simp at he; rcases he with rfl | rfl <;> decide
+  · show (0:Int) ≤ 500 ∧ (0:Int) ≤ 70; decide
+  · show demoEl.wf = true; decide
+  · show (0:Int) ≤ 9 ∧ (0:Int) ≤ 9; decide
+  · show ({} : Element).wf = true; decide
 
 end Tpp.Props.C01
